@@ -69,7 +69,7 @@ def main():
         asz = CA.SIZES["quick"]
         for mode in ("edit", "read"):
             fn = os.path.join(work, "cov_audio_%s.cfg" % mode)
-            common.write_cfg(fn, dict(Mode=mode, MaxLen=asz["MaxLen"] if mode == "edit" else asz["readMaxLen"], Depth=asz["Depth"] if mode == "edit" else 1,
+            common.write_cfg(fn, dict(Mode=mode, MaxLen=asz["MaxLen"] if mode == "edit" else asz["readMaxLen"], Depth=2 if mode == "edit" else 1,
                                       MaxIv=asz["MaxIv"], Emit=False, Slice=0, NSlices=2), invariants=["NoFail"], constraints=["Bound"])
             run("MC_Audio", fn, work, "MC_Audio " + mode, out)
         fn = os.path.join(work, "cov_zc.cfg")
